@@ -451,4 +451,172 @@ theorem natK_eq {K : Type} [Field K] (n : ℕ) : (natK n : K) = n := by
   | zero => simp [natK]
   | succ n ih => simp [natK, ih]
 
+/-! ## `Scale.__init__` -/
+
+section MkScale
+
+theorem all_zero_iff (d : List ℤ) : d.all (· == 0) = true ↔ ∀ j, dget d j = 0 := by
+  induction d with
+  | nil => simp
+  | cons e d ih =>
+    simp only [List.all_cons, Bool.and_eq_true, beq_iff_eq, ih]
+    constructor
+    · rintro ⟨he, h⟩ j
+      cases j with
+      | zero => simpa using he
+      | succ j => simpa using h j
+    · intro h
+      exact ⟨by simpa using h 0, fun j => by simpa using h (j + 1)⟩
+
+theorem singleDim_eq_some_iff (d : List ℤ) (i : ℕ) :
+    singleDim d = some i ↔ dget d i = 1 ∧ ∀ j, j ≠ i → dget d j = 0 := by
+  induction d generalizing i with
+  | nil => simp [singleDim]
+  | cons e d ih =>
+    simp only [singleDim]
+    split_ifs with h0 h1
+    · subst h0
+      cases i with
+      | zero => simp
+      | succ i =>
+        simp only [Option.map_eq_some_iff, Nat.add_right_cancel_iff, exists_eq_right, ih,
+          dget_cons_succ]
+        constructor
+        · rintro ⟨h1, h2⟩
+          refine ⟨h1, fun j hj => ?_⟩
+          cases j with
+          | zero => simp
+          | succ j => simpa using h2 j (by omega)
+        · rintro ⟨h1, h2⟩
+          exact ⟨h1, fun j hj => by simpa using h2 (j + 1) (by omega)⟩
+    · obtain ⟨he, hall⟩ := h1
+      rw [all_zero_iff] at hall
+      subst he
+      cases i with
+      | zero =>
+        simp only [dget_cons_zero, true_and]
+        refine ⟨fun _ j hj => ?_, fun _ => trivial⟩
+        cases j with
+        | zero => exact absurd rfl hj
+        | succ j => simpa using hall j
+      | succ i =>
+        simp only [Option.some.injEq, dget_cons_succ]
+        constructor
+        · intro h; omega
+        · rintro ⟨_, h2⟩
+          have := h2 0 (by omega)
+          simp at this
+    · simp only [false_iff, not_and]
+      intro hi hz
+      cases i with
+      | zero =>
+        apply h1
+        refine ⟨by simpa using hi, ?_⟩
+        rw [all_zero_iff]
+        intro j
+        simpa using hz (j + 1) (by omega)
+      | succ i =>
+        have := hz 0 (by omega)
+        simp at this
+        exact h0 this
+
+variable {K : Type}
+
+theorem setAt_eq_some_iff (i : ℕ) (m : K) (sc sc' : List (Option K)) :
+    setAt i m sc = some sc' ↔ sc[i]? = some none ∧ sc' = sc.set i (some m) := by
+  fun_induction setAt i m sc generalizing sc' with
+  | case1 i m => simp
+  | case2 m sc => simp [eq_comm]
+  | case3 m sc q => simp
+  | case4 i m s sc ih =>
+    simp only [Option.map_eq_some_iff, ih, List.getElem?_cons_succ, List.set_cons_succ]
+    constructor
+    · rintro ⟨a, ⟨h1, rfl⟩, rfl⟩
+      exact ⟨h1, rfl⟩
+    · rintro ⟨h1, rfl⟩
+      exact ⟨_, ⟨h1, rfl⟩, rfl⟩
+
+
+/-- the magnitude given for base dimension `i`, if any -/
+def scaleEntry (qs : List (K × List ℤ)) (i : ℕ) : Option K :=
+  (qs.find? (fun q => singleDim q.2 == some i)).map Prod.fst
+
+/-- what `Scale.__init__` accepts: every quantity has a single base dimension (one of the `n`) with
+exponent 1, and no dimension is given twice -/
+def ValidScales (n : ℕ) (qs : List (K × List ℤ)) : Prop :=
+  (∀ q ∈ qs, ∃ i, i < n ∧ singleDim q.2 = some i) ∧ (qs.map (fun q => singleDim q.2)).Nodup
+
+theorem scaleEntry_cons (m : K) (d : List ℤ) (qs : List (K × List ℤ)) (j : ℕ) :
+    scaleEntry ((m, d) :: qs) j = if singleDim d = some j then some m else scaleEntry qs j := by
+  unfold scaleEntry
+  rw [List.find?_cons]
+  by_cases h : singleDim d = some j
+  · simp [h]
+  · have hb : (singleDim d == some j) = false := by simpa using h
+    simp [hb, h]
+
+theorem scaleEntry_eq_none_iff (qs : List (K × List ℤ)) (i : ℕ) :
+    scaleEntry qs i = none ↔ some i ∉ qs.map (fun q => singleDim q.2) := by
+  unfold scaleEntry
+  rw [Option.map_eq_none_iff, List.find?_eq_none]
+  simp only [List.mem_map, not_exists, not_and, beq_iff_eq]
+
+theorem mkScale_eq_some_iff (n : ℕ) (qs : List (K × List ℤ)) (sc : List (Option K)) :
+    mkScale n qs = some sc ↔ ValidScales n qs ∧ sc = (List.range n).map (scaleEntry qs) := by
+  induction qs generalizing sc with
+  | nil =>
+    have : (List.range n).map (scaleEntry ([] : List (K × List ℤ))) = List.replicate n none := by
+      have h0 : scaleEntry ([] : List (K × List ℤ)) = fun _ => none := by
+        funext i; simp [scaleEntry]
+      rw [h0, List.map_const', List.length_range]
+    simp [mkScale, ValidScales, this, eq_comm]
+  | cons q qs ih =>
+    obtain ⟨m, d⟩ := q
+    have hvalid : ValidScales n ((m, d) :: qs) ↔
+        (∃ i, i < n ∧ singleDim d = some i) ∧ singleDim d ∉ qs.map (fun q => singleDim q.2) ∧
+          ValidScales n qs := by
+      simp only [ValidScales, List.forall_mem_cons, List.map_cons, List.nodup_cons]
+      tauto
+    rw [hvalid]
+    simp only [mkScale]
+    cases h1 : mkScale n qs with
+    | none =>
+      simp only [reduceCtorEq, false_iff]
+      rintro ⟨⟨_, _, hv⟩, _⟩
+      have := (ih _).2 ⟨hv, rfl⟩
+      rw [h1] at this; cases this
+    | some sc0 =>
+      obtain ⟨hv, rfl⟩ := (ih sc0).1 h1
+      cases h2 : singleDim d with
+      | none => simp
+      | some i =>
+        simp only [setAt_eq_some_iff, Option.some.injEq, exists_eq_right', hv, and_true]
+        have hget : ((List.range n).map (scaleEntry qs))[i]? = some none ↔
+            i < n ∧ some i ∉ qs.map (fun q => singleDim q.2) := by
+          rw [← scaleEntry_eq_none_iff]
+          by_cases hi : i < n
+          · simp [hi]
+          · simp [hi]
+        rw [hget]
+        have hset : i < n → ((List.range n).map (scaleEntry qs)).set i (some m)
+            = (List.range n).map (scaleEntry ((m, d) :: qs)) := by
+          intro hi
+          apply List.ext_getElem?
+          intro j
+          rw [List.getElem?_set]
+          by_cases hj : j < n
+          · by_cases hij : i = j
+            · subst hij; simp [hj, scaleEntry_cons, h2]
+            · simp [hj, hij, scaleEntry_cons, h2]
+          · have : i ≠ j := by omega
+            simp [hj, this]
+        constructor
+        · rintro ⟨⟨hi, hn⟩, rfl⟩
+          exact ⟨⟨hi, hn⟩, (hset hi)⟩
+        · rintro ⟨⟨hi, hn⟩, rfl⟩
+          exact ⟨⟨hi, hn⟩, (hset hi).symm⟩
+
+
+end MkScale
+
 end Dino.Units
